@@ -9,6 +9,9 @@ Tie (this check): harness/iindex_hist.py `run_check(ctx, "C15")` - the C06 histo
     history, and non-index operands; both directions; `!=` must be exactly `not ==` and never raise (a raising comparison is
     recorded as -1); inside Coq `chk15eq` compares the real answers with `eq_model`/`ne_model` AND with
     "same shape, common and dense content".
+  * the in-Coq tie is small-scope (N <= 8 initial rows); a SCALE stream (histories from sparse indexes of 130-400 rows with
+    50-200-row appends and out-of-order multi-value updates; a few one-step cases on arrays of more than 65 536 cells) is
+    always judged by the model-free oracles and compared inside Coq only while the literals stay small.
 Notes: notes/iindex-harness.md."""
 from .. import iindex_hist
 
